@@ -104,6 +104,18 @@ function dumpRoot(root) {
   return out
 }
 
+// adjacent text nodes merged (used where only the rendered text matters, not the text-node boundaries)
+function mergeText(list) {
+  const out = []
+  for (const n of list) {
+    const last = out[out.length - 1]
+    if (n.k === 't' && n.text === '') continue // an empty text node renders nothing
+    if (n.k === 't' && last && last.k === 't') last.text = String(last.text) + String(n.text)
+    else out.push(n.kids ? { ...n, kids: mergeText(n.kids) } : { ...n })
+  }
+  return out
+}
+
 // ---------------------------------------------------------------------------------------------
 // tree comparison: returns list of mismatches {where, id, ch, name, expected, actual}
 
@@ -122,7 +134,7 @@ function cmpMapChannel(where, id, ch, expMap, actMap, out, opts, valOf) {
     if (!(k in a)) { out.push({ where, id, ch, name: k, expected: show(valOf(e[k])), actual: '<absent>' }); continue }
     cmpVal(where, id, ch, k, valOf(e[k]), valOf(a[k]), out, opts)
     if (ch === 'v') {
-      if (!!e[k].dyn !== !!a[k].dyn) out.push({ where, id, ch: 'v.dyn', name: k, expected: String(!!e[k].dyn), actual: String(!!a[k].dyn) })
+      if (!(opts && opts.ignoreDyn) && !!e[k].dyn !== !!a[k].dyn) out.push({ where, id, ch: 'v.dyn', name: k, expected: String(!!e[k].dyn), actual: String(!!a[k].dyn) })
     }
   }
 }
@@ -350,7 +362,7 @@ const handlers = {
       if (a.threw !== null || b.threw !== null) {
         if ((a.threw === null) !== (b.threw === null)) m.push({ where: '', ch: 'throw', name: 'create', expected: a.threw === null ? '<returns>' : 'throws: ' + a.threw, actual: b.threw === null ? '<returns>' : 'throws: ' + b.threw })
       } else {
-        cmpTrees(a.dump, b.dump, '', m, { paths: true, fnBySource: true })
+        cmpTrees(mergeText(a.dump), mergeText(b.dump), '', m, { paths: true, fnBySource: true, ignoreDyn: true })
         for (let i = 1; i < datas.length && !m.length; i += 1) {
           const U = reviveTree(h.trees[i - 1])
           let ta = null; let tb = null
@@ -360,7 +372,7 @@ const handlers = {
             if ((ta === null) !== (tb === null)) m.push({ where: '', ch: 'throw', name: 'update' + i, expected: ta === null ? '<returns>' : 'throws: ' + ta, actual: tb === null ? '<returns>' : 'throws: ' + tb })
             break
           }
-          cmpTrees(dumpRoot(a.inst.root), dumpRoot(b.inst.root), '', m, { paths: true, fnBySource: true })
+          cmpTrees(mergeText(dumpRoot(a.inst.root)), mergeText(dumpRoot(b.inst.root)), '', m, { paths: true, fnBySource: true, ignoreDyn: true })
         }
       }
       results.push({ mismatches: m.slice(0, 30) })
